@@ -81,7 +81,7 @@ PROPS = {
     ),
     "C03": dict(
         units=["G1", "G2", "G3", "G4", "G7", "K1", "K2", "K5", "K6", "K7", "A3", "T1", "G5a", "G5c", "P", "K9"],
-        quick_skip=[r"^k9_(?!u8x3_(sse4|avx2)_(one_row|four_rows)_w2|vertical_(sse4|avx2)_u8x3_w5)", r"^g5b_", r"^c12_copy_(1x3|3x2|3x3)$", r"^g3_typed_(ref_)?from_buffer_(u8x3|u16x2)$", r"^g8_temp_image_(u16x2|zero)$", r"^k7_u16x1", r"^k8_plan"],
+        quick_skip=[r"^k9_(?!u8x3_(sse4|avx2)_one_row_w2|vertical_(sse4|avx2)_u8_w7_t2)", r"^g5b_", r"^c12_copy_(1x3|3x2|3x3)$", r"^g3_typed_(ref_)?from_buffer_(u8x3|u16x2)$", r"^g8_temp_image_(u16x2|zero)$", r"^k7_u16x1", r"^k8_plan"],
         level="proof",
         level_text="C03 is decided as the conjunction of the safety obligations of the units under contract: arithmetic overflow, division "
                    "by zero, array bounds, unwrap, pointer validity of every unchecked access are obligations generated by Verus / CBMC for "
@@ -106,7 +106,7 @@ PROPS = {
     ),
     "C10": dict(
         units=["L1", "W", "K7", "K4", "K9"],
-        quick_skip=[r"^k9_(?!native|vertical_(sse4|avx2)_u8x3_w5|u8x4_avx2_one_row_w0)", r"^k7_u16x1_taps_fixed$"],
+        quick_skip=[r"^k9_(?!native|vertical_(sse4|avx2)_u8_w7_t2|u8x4_avx2_one_row_w0)", r"^k7_u16x1_taps_fixed$"],
         level="model_checking",
         level_text="The conditional lemma (taps summing to 2^p + e with |e|*max < 2^(p-1) reproduce every uniform value exactly, any window "
                    "length) is PROVED by Verus over the fixed-point formula. Its premise is established on the real taps only for enumerated "
@@ -116,7 +116,7 @@ PROPS = {
     ),
     "C18": dict(
         units=["L1", "W", "K7", "K4", "K9"],
-        quick_skip=[r"^k9_(?!native|vertical_(sse4|avx2)_u8x3_w5|u8x4_avx2_one_row_w0)"],
+        quick_skip=[r"^k9_(?!native|vertical_(sse4|avx2)_u8_w7_t2|u8x4_avx2_one_row_w0)"],
         level="model_checking",
         level_text="Order preservation and no-overshoot for non-negative taps are PROVED by Verus over the fixed-point formula for any window "
                    "length; Box and Bilinear are proved non-negative for every f64. The tie kernel == formula and the partition premise "
@@ -174,7 +174,7 @@ PROPS = {
     ),
     "C02": dict(
         units=["A7", "A8", "K5", "K9"],
-        quick_skip=[r"^a8_.*avx2", r"^a8_u8x2", r"^a8_f32x4", r"^a7_u(8|16)x\d_avx2_divide$", r"^a7_.*native_grid$", r"^k9_vertical_(sse4|avx2)_u8_w47", r"^k9_u8x3_avx2_four_rows"],
+        quick_skip=[r"^a8_.*avx2", r"^a8_u8x2", r"^a8_f32x4", r"^a7_u(8|16)x\d_avx2_divide$", r"^a7_.*native_grid$", ],
         level="proof",
         level_text="Scope: the alpha kernels, the precision dispatch and (bounded) the u8 convolution kernels. The SSE4.1 / AVX2 u8 convolution kernels "
                    "(vertical u8 generic, u8x4, u8x3, u8x2 horizontal) are compared byte for byte with the portable kernels on concrete tap tables "
